@@ -420,6 +420,10 @@ func ruleC11(c *Ctx) {
 		// R8: what is decoded into the EncryptedAssertion struct is a detached copy of the visited element that keeps the
 		// namespace declarations it inherits (NSDetatch) — a plain Copy() drops xmlns:saml declared on the Response and
 		// the element no longer decodes, so an encrypted response is refused where its plaintext twin is accepted
+		c.rule("C11-R9", "decryption is reached for every encrypted assertion the validators accept: on every accepting, validating path of ValidateEncodedResponse decryptAssertions runs (unconditionally — not behind a look at the undecoded, possibly compressed, bytes) on the right root and before the assertions are read (shared with C07-R2)")
+		nDec := shareFrom(c, "C11-R9", ruleC07, func(o *Obligation) bool { return o.Rule == "C07-R2" })
+		c.count("C11-R9/paths", nDec)
+		c.floor("C11-R9/paths", 3)
 		c.rule("C11-R8", "the EncryptedAssertion is decoded from a namespace-preserving detached copy (etreeutils.NSDetatch) of the element being visited")
 		n := 0
 		for _, t := range da.Terms {
